@@ -23,6 +23,16 @@ type Reg = Arc<GuestRegionMmap<()>>;
 type Gen = Vec<(u64, u8)>;
 
 fn mk_region(start: u64, tag: u8) -> Result<Reg, String> {
+    // every third region carries the hugetlbfs hint (an attribute only; the mapping is one page)
+    #[cfg(not(feature = "xen"))]
+    let r = if tag % 3 == 0 {
+        let mut m = vm_memory::MmapRegion::<()>::new(4096).map_err(|e| format!("{:?}", e))?;
+        m.set_hugetlbfs(true);
+        GuestRegionMmap::new(m, GuestAddress(start)).map_err(|e| format!("{:?}", e))?
+    } else {
+        GuestRegionMmap::<()>::from_range(GuestAddress(start), 4096, None).map_err(|e| format!("{:?}", e))?
+    };
+    #[cfg(feature = "xen")]
     let r = GuestRegionMmap::<()>::from_range(GuestAddress(start), 4096, None).map_err(|e| format!("{:?}", e))?;
     // SAFETY: fresh mapping of one page.
     unsafe { std::ptr::write_bytes(r.as_ptr(), tag, 4096) };
@@ -399,8 +409,8 @@ fn run_lock_hist(t: &mut Tape, cx: &mut Cx) -> Result<(), String> {
     use vm_memory::atomic::GuestMemoryExclusiveGuard;
     let n = t.below(4) as usize;
     let steps: Vec<u64> = (0..n).map(|_| t.below(4)).collect();
-    let a = GuestMemoryAtomic::new(Map::from_arc_regions(vec![mk_region(0x1000, 1)?]).map_err(|e| format!("{:?}", e))?);
-    let mut handles = vec![a.clone()];
+    // one handle only, shared by reference, unless a step clones it
+    let mut handles = vec![GuestMemoryAtomic::new(Map::from_arc_regions(vec![mk_region(0x1000, 1)?]).map_err(|e| format!("{:?}", e))?)];
     let mut expected: Vec<u64> = vec![0x1000];
     let mut next = 0x10_0000u64;
     fn take(h: &GuestMemoryAtomic<Map>) -> GuestMemoryExclusiveGuard<'_, Map> {
@@ -414,55 +424,70 @@ fn run_lock_hist(t: &mut Tape, cx: &mut Cx) -> Result<(), String> {
     let names = ["update", "lock and give up", "updater dies holding the lock", "clone handle"];
     note!(cx, "steps {:?}", steps.iter().map(|s| names[*s as usize]).collect::<Vec<_>>());
     for (i, s) in steps.iter().enumerate() {
-        let h = handles[(i + *s as usize) % handles.len()].clone();
+        let hi = (i + *s as usize) % handles.len();
         match s {
             0 => {
-                let g = take(&h);
+                let h = &handles[hi];
+                let g = take(h);
                 let nm = h.memory().insert_region(mk_region(next, 2 + i as u8)?).map_err(|e| format!("{:?}", e))?;
                 g.replace(nm);
                 expected.push(next);
                 next += 0x10_0000;
             }
             1 => {
-                let g = take(&h);
+                let g = take(&handles[hi]);
                 drop(g);
                 cx.nt("lock_given_up");
             }
             2 => {
-                let h2 = h.clone();
-                let r = std::thread::spawn(move || {
-                    let _g = take(&h2);
-                    panic!("updater dies while holding the update lock");
-                })
-                .join();
-                ensure!(r.is_err(), "HARNESS-PANIC: the dying updater did not die");
+                let h = &handles[hi];
+                let died = std::thread::scope(|sc| {
+                    sc.spawn(move || {
+                        let _g = take(h);
+                        panic!("updater dies while holding the update lock");
+                    })
+                    .join()
+                    .is_err()
+                });
+                ensure!(died, "HARNESS-PANIC: the dying updater did not die");
                 cx.nt("updater_died_holding_the_lock");
             }
-            _ => handles.push(h.clone()),
+            _ => {
+                let c = handles[hi].clone();
+                handles.push(c);
+            }
         }
-        ensure!(starts(&h) == expected, "after step {} ({}) the published map lists {:x?}, expected {:x?}", i, names[*s as usize], starts(&h), expected);
+        ensure!(starts(&handles[hi]) == expected, "after step {} ({}) the published map lists {:x?}, expected {:x?}", i, names[*s as usize], starts(&handles[hi]), expected);
+    }
+    if handles.len() == 1 {
+        cx.nt("single_handle_shared_by_reference");
     }
     // exclusion
-    let ha = handles[0].clone();
-    let hb = handles[handles.len() - 1].clone();
+    let ha = &handles[0];
+    let hb = &handles[handles.len() - 1];
     let (ra, rb) = (mk_region(next, 0x71)?, mk_region(next + 0x10_0000, 0x72)?);
-    let g = take(&ha);
-    let (tx, rx) = std::sync::mpsc::channel::<()>();
-    let b = std::thread::spawn(move || -> Result<(), String> {
-        let g2 = take(&hb);
-        let _ = tx.send(());
-        let nm = hb.memory().insert_region(rb).map_err(|e| format!("second updater: {:?}", e))?;
-        g2.replace(nm);
-        Ok(())
-    });
-    let inside = rx.recv_timeout(std::time::Duration::from_millis(20)).is_ok();
-    ensure!(!inside, "a second updater obtained the update lock while the first one still holds it (after steps {:?})", steps.iter().map(|s| names[*s as usize]).collect::<Vec<_>>());
-    let nm = ha.memory().insert_region(ra).map_err(|e| format!("first updater: {:?}", e))?;
-    g.replace(nm);
-    b.join().map_err(|_| "the second updater panicked".to_string())??;
+    let step_names: Vec<&str> = steps.iter().map(|s| names[*s as usize]).collect();
+    std::thread::scope(|sc| -> Result<(), String> {
+        let g = take(ha);
+        let (tx, rx) = std::sync::mpsc::channel::<()>();
+        let b = sc.spawn(move || -> Result<(), String> {
+            let g2 = take(hb);
+            let _ = tx.send(());
+            let nm = hb.memory().insert_region(rb).map_err(|e| format!("second updater: {:?}", e))?;
+            g2.replace(nm);
+            Ok(())
+        });
+        let inside = rx.recv_timeout(std::time::Duration::from_millis(20)).is_ok();
+        let verdict = if inside { Err(format!("a second updater obtained the update lock while the first one still holds it (after steps {:?}, {} handle(s))", step_names, handles.len())) } else { Ok(()) };
+        let nm = ha.memory().insert_region(ra).map_err(|e| format!("first updater: {:?}", e))?;
+        g.replace(nm);
+        let joined = b.join().map_err(|_| "the second updater panicked".to_string())?;
+        verdict?;
+        joined
+    })?;
     expected.push(next);
     expected.push(next + 0x10_0000);
-    ensure!(starts(&ha) == expected, "after both updaters the published map lists {:x?}, expected {:x?}: a replacement was lost", starts(&ha), expected);
+    ensure!(starts(ha) == expected, "after both updaters the published map lists {:x?}, expected {:x?}: a replacement was lost", starts(ha), expected);
     cx.nt("two_updaters");
     Ok(())
 }
